@@ -286,6 +286,44 @@ func runC18(p *Program, r *Result) {
 	// ---- R18.5
 	r.Rule("R18.5", "a size limit that is hit is reported, not silently applied", 6)
 	checkLimitDetection(p, r)
+
+	// ---- R18.7 the documented exception is decided on the whole key blob
+	r.Rule("R18.7", "a line is taken for an unsupported SSH key only if its whole key blob decodes", 1)
+	if skt := r.anchor(pkgCmdAge, "", "sshKeyType"); skt != nil {
+		stb := p.TB(skt)
+		n := 0
+		for _, c := range callsIn(skt) {
+			name := calleeName(c.Common())
+			if !strings.HasPrefix(name, "(*encoding/base64.Encoding).Decode") {
+				continue
+			}
+			n++
+			arg := c.Common().Args[len(c.Common().Args)-1]
+			t := stb.Term(arg)
+			truncated := ""
+			t.Walk(func(x *Term) {
+				if x.Op != "Slice" || len(x.Args) < 3 {
+					return
+				}
+				// a cut at a position found in the text (Index, Cut) keeps a whole field; a cut at a
+				// computed length does not
+				for _, b := range x.Args[1:] {
+					if b == nil || b.Op == "Const" {
+						continue
+					}
+					bs := b.String()
+					if strings.Contains(bs, "strings.Index") || strings.Contains(bs, "strings.LastIndex") || strings.Contains(bs, "bytes.Index") {
+						continue
+					}
+					truncated = short(x.String())
+				}
+			})
+			r.Check(truncated == "", skt.String(), "decode:whole-blob", r.pos(c), "the decoder sees "+short(t.String()), "only a part of the key blob is decoded ("+truncated+"): a damaged key line of a supported type passes for an unsupported key and is skipped instead of failing the file")
+		}
+		if n == 0 {
+			r.Unk(skt.String(), "decode:whole-blob", "", "no base64 decoding of the key blob found")
+		}
+	}
 }
 
 // checkLimitDetection: every io.LimitReader / io.LimitedReader in front of a
